@@ -754,7 +754,7 @@ func genCase(r *Rng, wild bool) tcase {
 }
 
 func gen(r *Rng, tier string, emit func(Sx)) {
-	n := 270
+	n := 200
 	if tier == "thorough" {
 		n = 4000
 	}
@@ -776,11 +776,24 @@ func gen(r *Rng, tier string, emit func(Sx)) {
 		t.to, t.value, t.gas = t.pre[1].addr, new(big.Int), 400000
 		emit(t.sx())
 	}
+	// stack-boundary probes: every opcode byte and every EIP-8024 immediate at exact heights
+	genProbes(r.Fork(), tier, emit)
+	// call trees exercising Amsterdam's state-gas charge / refill / hand-back at every level
+	ntree := 90
+	if tier == "thorough" {
+		ntree = 2500
+	}
+	for i := 0; i < ntree; i++ {
+		emit(genTree(r.Fork()).sx())
+	}
 	for i := 0; i < n; i++ {
 		t := genCase(r.Fork(), i%5 == 4)
+		if i%7 == 3 {
+			t.fork = 3 // Osaka + EIP-8024: raw 0xe6..0xe8 bytes become DUPN/SWAPN/EXCHANGE
+		}
 		// the generator runs the implementation once: cases that execute more than 300000
 		// instructions (cheap endless loops under a huge gas limit) are dropped, they only cost time
-		o := execute(t, modelFork[t.fork%3])
+		o := executeMode(t, modelFork[t.fork%4], false, t.fork%4 == 3)
 		if o.overrun || o.steps > 300000 {
 			continue
 		}
